@@ -24,8 +24,9 @@ RULE = ("constructor cases = 6 classes x required arguments positional/by keywor
         "non-trivial = distinct value whose str() is not the literal default '1.4'")
 ASSUMPTIONS = [
     "awesomeversion 24.6.0 compares two strings of the form [0-9]+(.[0-9]+)* as modelled from its source "
-    "(identical strings neither < nor >, otherwise compare_base_sections with missing sections = 0); every other "
-    "input is an oracle: the harness feeds the library's real verdicts and the theorems quantify over the oracle",
+    "(identical strings neither < nor >, otherwise compare_base_sections with missing sections = 0) and never "
+    "classifies one as SpecialContainer; every other input is an oracle (comparison verdicts, and whether the "
+    "strategy is SpecialContainer): the harness feeds the library's real answers, the theorems quantify over them",
     "the int() of a version section is unbounded in the model (CPython refuses more than 4300 digits)",
     "constructor arguments are opaque to the constructors except persistence (truth value) and protocol_version; "
     "calls the model does not interpret (OTAFirmware, threading.Lock, LineReader protocols, handler registration) "
@@ -44,8 +45,8 @@ THEOREMS_DOC = {
     "C18_floor_rule": "Spec floor function = greatest supported version <=num v, else the 1.4 constants",
     "C18_version_floor": "forall dotted numeric strings: get_const = floor; safe_is_version keeps v iff v >=num 1.4; is_sensor's >= 2.0 test = a 2.x table is selected; a node gets the same table",
     "C18_node_same_rule": "forall values and oracles: node_const = gateway_const",
-    "C18_nonnumeric_fallback": "oracle says incomparable or older than 1.4 -> version 1.4 and 1.4 constants (gateway and node)",
-    "C18_nonnumeric_fallback_refuted": "witness (known finding version/container-word): with awesomeversion's verdict on its container word 'dev' the digit-free string is kept and selects the 2.2 constants",
+    "C18_nonnumeric_fallback": "str() not dotted numeric and (container word | library cannot compare | older than 1.4) -> version 1.4 and 1.4 constants (gateway and node); otherwise kept as written",
+    "C18_nonnumeric_fallback_unfixed_refuted": "history (finding version/container-word, fixed by b5ee08d): without the container test and with awesomeversion's verdict on 'dev' the digit-free string was kept and selected the 2.2 constants; with the test it gives 1.4",
     "C18_generated_matches_spec": "generated CONST_VERSIONS/defaults = Spec's supported list; documented examples use documented keywords only",
 }
 
@@ -196,7 +197,7 @@ def rep_case(idx, kw, choices):
 VERSION_EXTRAS = ["2", "2.00", "02.0", "2.0.0.0", "2.2.0.1", "1.4.0.0", "1.04", "1.40", "0", "10.0", "2.10",
                   "1.4", "99999999999999999999.1", "2.00000000000000000000000001", "20.04", "2024.1.1",
                   "2.0-beta", "2.0b1", "v2.0", " 2.0", "2.0 ", "2.0.", ".2.0", "2..0", "2,0", "abc", "", "None",
-                  "latest", "dev", "1.4a", "2.x", "٢.٠", "2.0\n", "0x20", "1e1", "-2.0", "+2.0", "2.0.0-rc1",
+                  "latest", "dev", "stable", "beta", " dev ", "vdev", "dev.", "Vlatest", "Latest", "1.4a", "2.x", "٢.٠", "2.0\n", "0x20", "1e1", "-2.0", "+2.0", "2.0.0-rc1",
                   2.0, 1.5, 2.2, 1.3, 2.25, 0.0, 2, 1, 0, 3, 14, True, False, None]
 
 OPTION_POOLS = {
@@ -281,7 +282,12 @@ CONTAINER_WORDS = ("latest", "dev", "stable", "beta")   # awesomeversion's Speci
 
 
 def container_word(v):
-    return isinstance(v, str) and v.strip() in CONTAINER_WORDS
+    if not isinstance(v, str):
+        return False
+    w = v.strip()
+    w = w[:-1] if w.endswith(".") else w
+    w = w[1:] if w[:1] in ("v", "V") else w
+    return w in CONTAINER_WORDS
 OPS = ["lt", "le", "gt", "ge", "eq", "ne"]
 DOTTED = re.compile(r"[0-9]+(\.[0-9]+)*\Z")
 _orc_cache = {}
@@ -301,8 +307,10 @@ def oracle_tokens(s):
     if s in _orc_cache:
         return _orc_cache[s]
     import operator
-    from awesomeversion import AwesomeVersion, AwesomeVersionCompareException
+    from awesomeversion import AwesomeVersion, AwesomeVersionCompareException, AwesomeVersionStrategy
     out = []
+    if AwesomeVersion(s).strategy == AwesomeVersionStrategy.SPECIALCONTAINER:
+        out.append("c:" + enc_str(s))
     for i, op in enumerate(OPS):
         f = getattr(operator, op)
         for o in FIXED_VERSIONS:
@@ -795,8 +803,10 @@ def version_values(ctx):
 def container_witness_selftest():
     """The oracle used by the Coq witness C18_nonnumeric_fallback_refuted (container_orc) is the library's verdict."""
     import operator
-    from awesomeversion import AwesomeVersion
+    from awesomeversion import AwesomeVersion, AwesomeVersionStrategy
     for w in CONTAINER_WORDS:
+        if AwesomeVersion(w).strategy != AwesomeVersionStrategy.SPECIALCONTAINER:
+            return f"awesomeversion does not classify {w!r} as a special container"
         for op in OPS:
             for o in FIXED_VERSIONS:
                 try:
